@@ -17,7 +17,7 @@ type c15Case struct {
 	classes []string   // class names
 	parents [][]string // parents[i] = parents of classes[i]
 	alias   int        // 0 none, 1 X->T, 2 X->Y,Y->T, 3 X->Y,Y->X (alias cycle; the variable is typed by X), 4 X->Y|Z, Y->X|Z, Z->X|Y (cycle through unions)
-	wrap    int        // 0 T, 1 T[], 2 table<string,T> (v["k"].), 3 table<number,T> (v[1].), 4 a class field of type table<string,T> (v.f.k.), 5 table<string,table<string,T>> (v.x.y.)
+	wrap    int        // 0 T, 1 T[], 2 table<string,T> (v["k"].), 3 table<number,T> (v[1].), 4 a class field of type table<string,T> (v.f.k.), 5 table<string,table<string,T>> (v.x.y.), 6 T[][] (v[1][2].)
 	split   bool       // declarations in defs.lua, variable in main.lua
 	layout  int        // 0 class blocks separated by blank lines; 1 one contiguous comment block; 2 one file per class; 3 every class declared in two files (each part with its own field); 4 the file of a class also holds a part of each of its direct parents (field f<parent>_<child>); 5 the same, except that the file of the root class holds no such parts
 }
@@ -158,6 +158,9 @@ func (c c15Case) build() (files map[string]string, mainFile string, access strin
 	case 5:
 		typ = "table<string, table<string, " + typ + ">>"
 		access = "v.x.y."
+	case 6:
+		typ += "[][]"
+		access = "v[1][2]."
 	}
 	var use []string
 	use = append(use, "---@type "+typ, "local v = {}")
@@ -217,7 +220,7 @@ func c15Cases(tier string) []c15Case {
 	two := []string{"A", "B"}
 	for _, ps := range graphs(two) {
 		for alias := 0; alias < 5; alias++ {
-			for wrap := 0; wrap < 6; wrap++ {
+			for wrap := 0; wrap < 7; wrap++ {
 				for _, split := range []bool{false, true} {
 					for layout := 0; layout < 6; layout++ {
 						out = append(out, c15Case{two, ps, alias, wrap, split, layout})
@@ -235,7 +238,7 @@ func c15Cases(tier string) []c15Case {
 				out = append(out, c15Case{three, ps, 0, 0, split, layout})
 				if tier == "thorough" {
 					for alias := 0; alias < 5; alias++ {
-						for wrap := 0; wrap < 6; wrap++ {
+						for wrap := 0; wrap < 7; wrap++ {
 							if alias == 0 && wrap == 0 {
 								continue
 							}
